@@ -236,7 +236,15 @@ class StrLang:
             d0 = defaults.get(pname)
             if pname not in bound and pname not in posviews and isinstance(d0, ast.Constant) and isinstance(d0.value, int) and not isinstance(d0.value, bool):
                 posviews[pname] = ("posconst", d0.value)
-        free = [p for p in params if p not in bound and p not in posviews]
+        # a parameter with a string default that the call does not bind: the language decided is that of the call
+        # the property speaks about, where the default applies (is_w3c_curie(s) with sep=":")
+        str_defaults = {}
+        if len([p for p in params if p not in bound and p not in posviews]) > 1:
+            for pname in params:
+                d0 = defaults.get(pname)
+                if pname not in bound and pname not in posviews and isinstance(d0, ast.Constant) and isinstance(d0.value, str):
+                    str_defaults[pname] = d0.value
+        free = [p for p in params if p not in bound and p not in posviews and p not in str_defaults]
         if len(free) != 1:
             raise Unsupported(f"{fname} does not take exactly one string parameter")
         views = {free[0]: ("whole",)}
@@ -250,6 +258,8 @@ class StrLang:
                 self.regexes[pname] = saved[0][cname]
             elif cname in saved[1]:
                 self.strings[pname] = saved[1][cname]
+        for pname, sval in str_defaults.items():
+            self.strings[pname] = sval
         try:
             res, _ = self._block(node.body, self.L.SIGMA_STAR, views)
         finally:
@@ -582,6 +592,8 @@ class StrLang:
         L = self.L
         if isinstance(e, ast.Constant):
             return L.SIGMA_STAR if e.value else L.EMPTY
+        if isinstance(e, ast.Name) and e.id not in views and isinstance(self.strings.get(e.id), str):
+            return L.SIGMA_STAR if self.strings[e.id] else L.EMPTY  # a name bound to a string constant
         if isinstance(e, ast.Name) and e.id in views:
             if views[e.id][0] == "truth":
                 return views[e.id][1]
